@@ -119,7 +119,20 @@ def window(model: str, Tn: float, win: str, s: float):
     if win == "wide":  # well beyond the existence of the phases: ends are a spinodal or the limit
         return 0.6 * Tn * s, 1.5 * Tn * s
     lo, hi = MODELS[model]["inside"]
-    return lo * s, hi * s
+    if win == "inside":
+        return lo * s, hi * s
+    # staggered windows: the two phases are tabulated over DIFFERENT ranges (as WallGoManager does), in both orders, so a
+    # coefficient matched at the other phase's range end is visible. Returned as ((loHigh, hiHigh), (loLow, hiLow)).
+    w = hi - lo
+    inner = (lo + 0.22 * w, hi - 0.22 * w)
+    if not (inner[0] < Tn < inner[1]):
+        inner = (min(inner[0], Tn - 0.1 * w), max(inner[1], Tn + 0.1 * w))
+    outer = (lo, hi)
+    if win == "stagger-high-inner":
+        return (inner[0] * s, inner[1] * s), (outer[0] * s, outer[1] * s)
+    if win == "stagger-low-inner":
+        return (outer[0] * s, outer[1] * s), (inner[0] * s, inner[1] * s)
+    raise ValueError(win)
 
 
 # ----------------------------------------------------------------------------- building real objects
@@ -149,8 +162,12 @@ def build(am, Tn, high, low, TlimLo, TlimHi, rTol, extrapolate=True, stages=None
         for st in stages or (["trace"] + (["extrapolate"] if extrapolate else [])):
             stage = st
             if st == "trace":
-                th.freeEnergyHigh.tracePhase(TlimLo, TlimHi, dT, rTol=rTol)
-                th.freeEnergyLow.tracePhase(TlimLo, TlimHi, dT, rTol=rTol)
+                if isinstance(TlimLo, tuple):  # per-phase limits: TlimLo = (lo, hi) of the high-T phase, TlimHi = of the low-T phase
+                    th.freeEnergyHigh.tracePhase(TlimLo[0], TlimLo[1], dT, rTol=rTol)
+                    th.freeEnergyLow.tracePhase(TlimHi[0], TlimHi[1], dT, rTol=rTol)
+                else:
+                    th.freeEnergyHigh.tracePhase(TlimLo, TlimHi, dT, rTol=rTol)
+                    th.freeEnergyLow.tracePhase(TlimLo, TlimHi, dT, rTol=rTol)
             elif st == "extrapolate":
                 th.setExtrapolate()
     except Exception as ex:  # noqa: BLE001 - classified by the caller
@@ -471,8 +488,8 @@ def eos_cases(tier: str, rtols=(1e-6,)) -> list[dict]:
     out = []
     for model in models:
         for Tn in MODELS[model]["Tn"]:
-            for win in ("wide", "inside"):
-                if win == "inside" and MODELS[model]["inside"] is None:
+            for win in ("wide", "inside", "stagger-high-inner", "stagger-low-inner"):
+                if win != "wide" and MODELS[model]["inside"] is None:
                     continue
                 for s in scales:
                     for rTol in rtols:
